@@ -983,6 +983,14 @@ func specObjsOK(a []Object) bool {
 	return verifrt.Forall(func(i int) bool { return !(0 <= i && i < len(a)) || a[i] != nil })
 }
 
+// specElemsOK: an array argument holds no nil element (the VM never stores one).
+func specElemsOK(o Object) bool {
+	if a, ok := o.(Array); ok {
+		return verifrt.Forall(func(i int) bool { return !(0 <= i && i < len(a)) || validObj(a[i]) })
+	}
+	return true
+}
+
 func specCallOK(c Call) bool { return specObjsOK(c.args) && specObjsOK(c.vargs) }
 
 // ---------------------------------------------------------------------------
